@@ -1009,9 +1009,62 @@ def rule_body_only_rendered(model):
     return r
 
 
+def rule_scan_restart(model):
+    r = RuleResult('C01.R9', 'a candidate the hand-written scanner rejects '
+                   'costs exactly one character: the scan resumes right '
+                   'behind the character that looked like a tag start, so '
+                   'whatever follows a near-tag fragment ("&dtml-" without '
+                   'a proper reference, "<" ...) is still seen as the tag, '
+                   'entity or block it is')
+    sc = model.func('DT_HTML', 'dtml_re_class.search')
+    n = 0
+    for f in model.closure(sc):
+        for lp in [x for x in own_nodes(f.node) if isinstance(x, ast.While)]:
+            # cursor: second argument of the search for a tag-start
+            # character at the head of the loop; S: where it matched
+            cur = mo = None
+            for st in lp.body[:3]:
+                if isinstance(st, ast.Assign) and isinstance(
+                        st.value, ast.Call) and len(st.value.args) == 2 and \
+                        isinstance(st.value.args[1], ast.Name) and \
+                        isinstance(st.targets[0], ast.Name):
+                    cur, mo = st.value.args[1].id, st.targets[0].id
+                    break
+            if cur is None:
+                continue
+            svar = None
+            for st in lp.body[:5]:
+                if isinstance(st, ast.Assign) and isinstance(
+                        st.targets[0], ast.Name) and norm(st.value) in (
+                        f'{mo}.start(0)', f'{mo}.start()'):
+                    svar = st.targets[0].id
+            if svar is None:
+                continue
+            for x in ast.walk(lp):
+                if isinstance(x, ast.Assign) and any(
+                        isinstance(t, ast.Name) and t.id == cur
+                        for t in x.targets):
+                    n += 1
+                    ok = lin_eq(x.value, parse_expr(f'{svar} + 1'))
+                    r.instance(f.where, x, 'next character' if ok
+                               else 'SKIPS TEXT')
+                    if not ok:
+                        r.finding(f.where, x, 'after a rejected candidate '
+                                  f'the scan resumes at {norm(x.value)}, not '
+                                  f'at {svar} + 1: a tag, entity or block '
+                                  'that starts inside the skipped text is '
+                                  'emitted as source text (and the body of a '
+                                  'swallowed block unconditionally)',
+                                  node=x, ctx=f)
+    if n < 1:
+        raise AnalysisError('C01.R9: the restart of the tag scanner after a '
+                            'rejected candidate was not found')
+    return r
+
+
 RULES = [rule_eol, rule_who_skips, rule_provenance, rule_prefix_widths,
          rule_tag_identity, rule_epfs_upper, rule_block_origin,
-         rule_body_only_rendered]
+         rule_body_only_rendered, rule_scan_restart]
 EXPLANATION = (
     'Regex language inclusion of the line-end pattern in [ \\t]*\\n; '
     'who-may-call query for skip_eol with origin pairing of its argument; '
